@@ -15,7 +15,11 @@ From Coq Require Import Permutation String Ascii.
       topic, as multisets (each registration exactly once, removed / replaced / non-matching ones
       not at all); on_message ran exactly once iff no registration matches (and on_message is set);
       undecodable topic => no filtered callback. *)
-Theorem C15_all_histories : forall h, deliveries_valid h = true -> c15_ok (h_log h) = true.
+(*    [sup] = client.suppress_exceptions; handlers may raise ([HDeliver]'s [raises]): with suppress_exceptions a raising
+      handler is logged and the remaining handlers still run, so the statement holds for arbitrary raising handlers;
+      without it the statement is for handlers that do not raise (a propagating exception ends the dispatch: 6.). *)
+Theorem C15_all_histories : forall sup h, deliveries_valid h = true -> sup = true \/ no_raise h = true ->
+  c15_ok (h_log sup h) = true.
 Proof. exact c15_all_histories. Qed.
 Print Assumptions C15_all_histories.
 
@@ -41,36 +45,48 @@ Proof. exact dispatch_undecodable. Qed.
 Print Assumptions C15_undecodable.
 
 (* 5. what the handlers of a delivery do to the registrations does not change what that delivery runs *)
-Theorem C15_snapshot : forall s topic dec inner inner',
-  hd (LDeliver [] false []) (snd (h_step (HDeliver topic dec inner) s)) =
-  hd (LDeliver [] false []) (snd (h_step (HDeliver topic dec inner') s)).
+Theorem C15_snapshot : forall sup s topic dec inner inner' raises,
+  hd (LDeliver [] false []) (snd (h_step sup (HDeliver topic dec inner raises) s)) =
+  hd (LDeliver [] false []) (snd (h_step sup (HDeliver topic dec inner' raises) s)).
 Proof. exact dispatch_snapshot. Qed.
 Print Assumptions C15_snapshot.
 
 (* Outside the hypothesis of 1: an inbound PUBLISH whose topic name contains a level "+" (forbidden by
    [MQTT-3.3.2-2]; the client does not reject it) runs the callback registered for "a/+" twice. *)
 Theorem C15_wildcard_topic_name_runs_twice :
-  let h := [HReg (RAdd [97; 47; 43] 1); HDeliver [97; 47; 43] true []] in
-  h_log h = [LReg (RAdd [97; 47; 43] 1); LDeliver [97; 47; 43] true [HFiltered 1; HFiltered 1]]
-  /\ c15_ok (h_log h) = false.
+  let h := [HReg (RAdd [97; 47; 43] 1); HDeliver [97; 47; 43] true [] []] in
+  h_log true h = [LReg (RAdd [97; 47; 43] 1); LDeliver [97; 47; 43] true [HFiltered 1; HFiltered 1]]
+  /\ c15_ok (h_log true h) = false.
 Proof. exact c15_wildcard_topic_double. Qed.
 Print Assumptions C15_wildcard_topic_name_runs_twice.
+
+(* 6. Outside the hypothesis of 1: without suppress_exceptions a handler that raises ends the dispatch (the exception
+      reaches the caller of loop_read()); with suppress_exceptions the same history runs every matching handler *)
+Theorem C15_propagating_exception_cuts_dispatch :
+  let h := [HReg (RAdd [97] 1); HReg (RAdd [43] 2); HDeliver [97] true [] [true]] in
+  h_log false h = [LReg (RAdd [97] 1); LReg (RAdd [43] 2); LDeliver [97] true [HFiltered 1]]
+  /\ c15_ok (h_log false h) = false
+  /\ h_log true h = [LReg (RAdd [97] 1); LReg (RAdd [43] 2); LDeliver [97] true [HFiltered 1; HFiltered 2]]
+  /\ c15_ok (h_log true h) = true.
+Proof. exact c15_propagating_exception_cuts_dispatch. Qed.
+Print Assumptions C15_propagating_exception_cuts_dispatch.
 
 (* ---------------------------------------------------------------- non-vacuity *)
 Definition b (s : string) : list Z := map (fun a => Z.of_N (N_of_ascii a)) (list_ascii_of_string s).
 
-(* overlapping wildcard filters, '$' topic, replacement, removal from inside a callback, undecodable topic *)
+(* overlapping wildcard filters, '$' topic, replacement, removal from inside a callback, undecodable topic;
+   suppress_exceptions with handlers that raise *)
 Example C15_history_ex :
   let h := [ HReg (RSetOnMessage true);
              HReg (RAdd (b "a/+") 1); HReg (RAdd (b "a/#") 2); HReg (RAdd (b "#") 3); HReg (RAdd (b "$SYS/#") 4);
-             HDeliver (b "a/b") true [[RRemove (b "a/#")]; [RAdd (b "a/b") 5]; [RAdd (b "#") 6]; [RAdd (b "zz") 9]];
-             HDeliver (b "a/b") true [];
-             HDeliver (b "$SYS/x") true [];
-             HDeliver (b "q") true [[RRemove (b "#")]];
-             HDeliver (b "q") true [];
-             HDeliver [255; 254] false [] ] in
-  deliveries_valid h = true /\
-  h_log h =
+             HDeliver (b "a/b") true [[RRemove (b "a/#")]; [RAdd (b "a/b") 5]; [RAdd (b "#") 6]; [RAdd (b "zz") 9]] [true; false; true];
+             HDeliver (b "a/b") true [] [];
+             HDeliver (b "$SYS/x") true [] [true];
+             HDeliver (b "q") true [[RRemove (b "#")]] [];
+             HDeliver (b "q") true [] [];
+             HDeliver [255; 254] false [] [] ] in
+  deliveries_valid h = true /\ no_raise h = false /\
+  h_log true h =
   [ LReg (RSetOnMessage true);
     LReg (RAdd (b "a/+") 1); LReg (RAdd (b "a/#") 2); LReg (RAdd (b "#") 3); LReg (RAdd (b "$SYS/#") 4);
     LDeliver (b "a/b") true [HFiltered 1; HFiltered 2; HFiltered 3];
@@ -80,7 +96,7 @@ Example C15_history_ex :
     LDeliver (b "q") true [HFiltered 6]; LReg (RRemove (b "#"));
     LDeliver (b "q") true [HOnMessage];
     LDeliver [255; 254] false [HOnMessage] ].
-Proof. split; reflexivity. Qed.
+Proof. repeat split; reflexivity. Qed.
 
 (* the checker does reject wrong logs: a missing callback, a duplicate, a spurious on_message *)
 Example C15_checker_rejects :
